@@ -1422,8 +1422,12 @@ def _arith(op, a, b):
         if is_sym(a) and is_sym(b):
             if E().notes.get("uf_mul") and z3.is_int(a2) and z3.is_int(b2):
                 return z3.Function("uf_mul_int", z3.IntSort(), z3.IntSort(), z3.IntSort())(a2, b2)
-            # nonlinear: concretise the right operand
+            # nonlinear: concretise one operand -- the index-like (Int) one when the other is bit-vector data
+            if z3.is_int(a) and z3.is_bv(b):
+                return _arith("mul", E().concretize(a), b)
             bv = E().concretize(b)
+            if z3.is_bv(b) and not z3.is_bv(a) and bv >= 1 << (b.size() - 1):
+                bv -= 1 << b.size()
             return _arith("mul", a, bv)
         k, s = (a, b2) if not is_sym(a) else (b, a2)
         if k == 0:
